@@ -32,3 +32,32 @@ Print Assumptions C12_atomic_matches_std.
 Example C12_i8_overflow :
   fst (loom_run I8 127 [NRmw FAdd 1; NLoad]) = [NRVal 127; NRVal (-128)].
 Proof. vm_compute. reflexivity. Qed.
+
+(* second half: through the model of the store ring (rt/atomic.rs). For every
+   sequence of loads, stores and RMWs by ONE thread, the load / RMW candidate list
+   is exactly the newest slot (also after the 7-slot ring wraps, any number of
+   times), the modification-order assertion never fires, and every value read is
+   the value of the most recent store. *)
+Require Import LV.Base LV.VV LV.Prog LV.Objects LV.Atomic LV.AtomicFacts.
+Close Scope Z_scope.
+Open Scope nat_scope.
+
+Theorem C12_single_thread_load_candidates :
+  forall me s caus, Inv me s caus ->
+    forall o, match_load_to_stores s me (vv_inc caus me) None o = Some [aindex (at_cnt s - 1)].
+Proof. exact single_thread_load_candidates. Qed.
+Print Assumptions C12_single_thread_load_candidates.
+
+Theorem C12_single_thread_rmw_candidates :
+  forall me s caus, Inv me s caus -> match_rmw_to_stores s = Some [aindex (at_cnt s - 1)].
+Proof. exact single_thread_rmw_candidates. Qed.
+Print Assumptions C12_single_thread_rmw_candidates.
+
+Theorem C12_single_thread_reads_latest :
+  forall me caus0 init ops, me < MAX_THREADS -> length caus0 = MAX_THREADS ->
+    exists s0 sf cf,
+      atomic_new me caus0 vv_new init = inl s0 /\
+      srun me (s0, caus0) ops = Some (sf, cf, ref_run init ops) /\
+      Inv me sf cf.
+Proof. exact single_thread_reads_latest. Qed.
+Print Assumptions C12_single_thread_reads_latest.
